@@ -83,16 +83,22 @@ def buildWith {τ ε σ : Type} (U : UnicodeOps) (S : Shape τ ε σ) (b : GPurl
 
 /-! ### parser (parse.rs:167-299) -/
 
+/-- `["", ".", ".."].contains(&segment)` (parse.rs:239). -/
+def isDotSeg (s : Str) : Bool := s = [] || s = ['.'] || s = ['.', '.']
+
+/-- `decoded.contains('/') || [".", ".."].contains(&&*decoded)` (parse.rs:243). -/
+def badSubSeg (d : Str) : Bool := d.contains '/' || d = ['.'] || d = ['.', '.']
+
 /-- loop of `decode_subpath` (parse.rs:238-250). -/
 def subpathSegs : List Str → Str → Except PErr Str
   | [], acc => .ok acc
   | seg :: rest, acc =>
-    if seg = [] || seg = ['.'] || seg = ['.', '.'] then subpathSegs rest acc
+    if isDotSeg seg then subpathSegs rest acc
     else
       match decode seg with
       | .error e => .error e
       | .ok d =>
-        if d.contains '/' || d = ['.'] || d = ['.', '.'] then .error .invalidEscape
+        if badSubSeg d then .error .invalidEscape
         else subpathSegs rest ((if acc.isEmpty then acc else acc ++ ['/']) ++ d)
 
 /-- `decode_subpath` (parse.rs:234-253). -/
